@@ -403,6 +403,32 @@ Fixpoint flives (st : fstate) (c : N) (lives : list (N * fend))
       (stf, s1 ++ s2 ++ sr, res :: rr)
   end.
 
+(* ---------- the glue: remote apricot client -> gRPC server wrapper -> the service ---------- *)
+(* apricot/remote/server.go RpcServer.NewRunNumber answers with the number AND the error of the
+   service's NewRunNumber; apricot/remote/service.go RemoteService.NewRunNumber returns the number
+   of the reply when the RPC succeeded and an error in every other case.  [reply]: None = the RPC
+   did not get through (server stopped, Unavailable), Some r = what the service returned. *)
+Definition remote_client (reply : option (option N)) : option N :=
+  match reply with Some (Some n) => Some n | _ => None end.
+
+(* the harness' operations: a call through the client; the server is stopped; a new server and a
+   new client are started on the same service; the counter file gets another content *)
+Inductive rop := RCall | RStop | RStart | RSet (b : str).
+(* per operation: what the client returned, what the service's NewRunNumber returned meanwhile *)
+Fixpoint rrun (st : fstate) (up : bool) (c : N) (ops : list rop) : list (option N * list (option N)) :=
+  match ops with
+  | [] => []
+  | RCall :: r =>
+      if up then
+        let st' := frun st (fserial [c]) in
+        let x := fres st' c in
+        (remote_client (Some x), [x]) :: rrun st' up (N.succ c) r
+      else (remote_client None, []) :: rrun st up c r
+  | RStop :: r => (None, []) :: rrun st false c r
+  | RStart :: r => (None, []) :: rrun st true c r
+  | RSet b :: r => (None, []) :: rrun (fdo st (FCrash (Some b))) up c r
+  end.
+
 (* ---------- START_ACTIVITY in the environment state machine (before_event only) ---------- *)
 (* environment states as numbers: 0 STANDBY 1 DEPLOYED 2 CONFIGURED 3 RUNNING 4 DONE 5 ERROR *)
 Definition E_CONFIGURED : N := 2.
@@ -590,6 +616,8 @@ Inductive c07_case :=
    life returned, the file at the end *)
 | CFileLives (file0 : option str) (lives : list (N * fend))
              (ores : list (list (option N))) (ofile : option str)
+(* the remote path: a loopback gRPC apricot server on a file-backend service, the real client *)
+| CRemote (file0 : option str) (ops : list rop) (obs : list (option N * list (option N)))
 | CHist (clock0 : N) (states : list N) (nother : N) (ops : list hop)
         (olog : list lentry) (ores : list hres) (oothers : list cres) (okv : option (str * N)).
 
@@ -633,6 +661,8 @@ Definition corr07 (c : c07_case) : bool :=
   | CFileLives file0 lives ores ofile =>
       let '(st, _, res) := flives (finit file0) 0 lives in
       list_eqb (list_eqb (option_eqb N.eqb)) res ores && option_eqb str_eqb (f_file st) ofile
+  | CRemote file0 ops obs =>
+      list_eqb (pair_eqb (option_eqb N.eqb) (list_eqb (option_eqb N.eqb))) (rrun (finit file0) true 0 ops) obs
   | CHist clock0 states nother ops olog ores oothers okv =>
       let h0 := hinit (mkStore None clock0) states in
       let st := hs_ctr (hrun_st h0 0 ops) in
@@ -822,6 +852,16 @@ Fixpoint mon_lives (hi : N) (after : bool) (lives : list (N * fend)) (ores : lis
   | _, _ => 0
   end.
 
+(* ----- the glue.  12: the remote client returned a number with no error although the service
+   behind the server did not return that number (without error) during the call: an error was
+   swallowed on the way, or a number was made up *)
+Fixpoint mon_remote (obs : list (option N * list (option N))) : N :=
+  match obs with
+  | [] => 0
+  | (Some n, srv) :: r => if existsb (fun x => option_eqb N.eqb x (Some n)) srv then mon_remote r else 12
+  | (None, _) :: r => mon_remote r
+  end.
+
 Definition mon07 (c : c07_case) : N :=
   match c with
   | CSched _ _ _ olog ores _ => mon_sched olog ores
@@ -839,6 +879,7 @@ Definition mon07 (c : c07_case) : N :=
       else if existsb (fun r => match r with Some 0 => true | _ => false end) ores then 5 else 7
   | CFileStress _ _ dups _ _ => if dups =? 0 then 0 else 6
   | CFileLives file0 lives ores _ => mon_lives (fcur file0) false lives ores
+  | CRemote _ _ obs => mon_remote obs
   | CHist _ states _ ops olog ores oothers _ => mon_hist states ops olog ores oothers
   end.
 
@@ -870,6 +911,11 @@ Definition tag07 (c : c07_case) : N :=
            + bit (2 <=? Nlen (filter (fun l => existsb (fun r => match r with Some _ => true | None => false end) l) ores)) 16
                                                                                (* numbers returned in at least two lives *)
            + bit (existsb (fun l => existsb (fun r => match r with None => true | _ => false end) l) ores) 32
+  | CRemote _ ops obs =>
+      6000 + bit (existsb (fun o => match o with RStop => true | _ => false end) ops) 1
+           + bit (existsb (fun o => match o with (None, _ :: _) => true | _ => false end) obs) 2   (* error reply *)
+           + bit (existsb (fun o => match o with RStart => true | _ => false end) ops) 4
+           + bit (2 <=? Nlen (filter (fun o => match fst o with Some _ => true | None => false end) obs)) 8
   | CHist _ states _ ops olog ores _ _ =>
       4000 + bit (2 <=? Nlen (hnums ores)) 1                        (* at least two attempts went on *)
            + bit (existsb (fun x => match hr_seen x with Some _ => hr_err x | None => false end) ores) 2
